@@ -167,6 +167,14 @@ impl NotificationSink {
     }
 }
 
+#[cfg(feature = "verif")]
+impl NotificationSink {
+    /// Free slots of the (synchronous, asynchronous) notification queues.
+    pub(crate) fn verif_capacities(&self) -> (usize, usize) {
+        (self.sync_tx.capacity(), self.async_tx.capacity())
+    }
+}
+
 /// Handle allowing the user protocol to interact with the notification protocol.
 #[derive(Debug)]
 pub struct NotificationHandle {
